@@ -173,10 +173,47 @@ def input_dicts(x) -> Dict[int, Any]:
     return {i: c for i, c in mutable_containers(x).items() if isinstance(c, dict)}
 
 
+def key_value_mutants(d, limit: int = 24) -> List[Any]:
+    """invalid data with several violations in one item: at every object / mapping of the datum a key
+    is replaced by other keys ('' / one letter / upper case / suffixed / non-string) while its value is
+    replaced by a value of another class (so that key and value of the same item are both invalid)"""
+    out: List[Any] = []
+    bad_values = [[], None, "s", 1.5, True, {"k": []}]
+
+    def rec(x, rebuild):
+        if len(out) >= limit:
+            return
+        if isinstance(x, dict):
+            for i, k in enumerate(list(x)[:3]):
+                rest = {kk: vv for kk, vv in x.items() if kk != k}
+                new_keys = ["", str(k)[:1], str(k).upper() + "!", 1] if isinstance(k, str) else ["k"]
+                for j, nk in enumerate(new_keys):
+                    bv = bad_values[(i + j) % len(bad_values)]
+                    if type(bv) is type(x[k]):
+                        bv = bad_values[(i + j + 1) % len(bad_values)]
+                    out.append(rebuild({**rest, nk: copy.deepcopy(bv)}))
+                    out.append(rebuild({**x, nk: copy.deepcopy(bv)}))
+                rec(x[k], lambda v, k=k: rebuild({**x, k: v}))
+        elif isinstance(x, list):
+            for i in range(min(len(x), 2)):
+                rec(x[i], lambda v, i=i: rebuild(x[:i] + [v] + x[i + 1 :]))
+
+    rec(d, lambda v: v)
+    return out[:limit]
+
+
 def data_for(td, tier, rng, aliaser=None) -> List[Any]:
     P.set_sample_aliaser(aliaser)
     try:
-        return (ext_samples(td) if aliaser is None else []) + P.data_pool(td, tier, rng)
+        base = (ext_samples(td) if aliaser is None else []) + P.data_pool(td, tier, rng)
+        seen = {repr(x) + str(P._typesig(x)) for x in base}
+        for s in (ext_samples(td) if aliaser is None else []) + P.valid_samples(td)[:4] + [{"a": 1}, {"ab": {"a": 1}}]:
+            for m in key_value_mutants(copy.deepcopy(s), 24 if tier == "quick" else 60):
+                k = repr(m) + str(P._typesig(m))
+                if k not in seen:
+                    seen.add(k)
+                    base.append(m)
+        return base
     finally:
         P.set_sample_aliaser(None)
 
@@ -210,7 +247,7 @@ def run_deser_no_copy(report, tier, seed, realm):
 
     rng = random.Random(seed)
     pool = pool_for(tier)
-    log = report.driver("deser_no_copy", bound=f"{len(pool)} type descriptions x option sets {list(DESER_OPTS)} x per-type datum pools (valid samples, boundary mutants, atoms, seeded random values; valid and invalid) x no_copy in {{True, False}}")
+    log = report.driver("deser_no_copy", bound=f"{len(pool)} type descriptions x option sets {list(DESER_OPTS)} x per-type datum pools (valid samples, boundary mutants, key-and-value mutants of every object / mapping item, atoms, seeded random values; valid and invalid) x no_copy in {{True, False}}")
     log.rule("case = (type, option set, datum) run with no_copy=True and no_copy=False; distinct by the triple; non-trivial when the datum is a container or the type is not a bare primitive")
     for td in pool:
         tp = _realize(report, td, realm)
